@@ -6,15 +6,15 @@ open LyModel LyModel.Lyb LyModel.Tree LyModel.Generated LyModel.Generated.LybTre
 
 theorem doc_rt (P : Params) (hP : P.Ok) (o : POpts) (S : LSchema) (hann : AnnotsOk S)
     (hname : S.modName ≠ []) (hrev : unpackRev (packRev S.rev) = S.rev) (t : List DNode) (hwf : WfForest S t)
-    (img : Bytes) (hp : printLyb P o S t = some img) (fuel : Nat) (hf : costL t + 1 ≤ fuel) :
+    (img : Bytes) (hp : printLybW P o S t = some img) (fuel : Nat) (hf : costL t + 1 ≤ fuel) :
     parseLybF P S fuel img = some (t.map (viewNode o S)) := by
-  simp only [printLyb] at hp
+  simp only [printLybW] at hp
   split at hp
   · simp at hp
   · rename_i ops hops
-    · have hnest := docOps_wellNested o S t ops hops
+    · have hnest := docOpsW_wellNested o S t ops hops
       have hat := at_init P hP ops hnest img hp
-      obtain ⟨x1, y1, hx1, hy1, rfl⟩ := cat_eq_some hops
+      obtain ⟨x1, y1, hx1, hy1, rfl⟩ := cat_eq_some (by simpa only [docOpsW, docAround] using hops)
       obtain ⟨x2, y2, hx2, hy2, rfl⟩ := cat_eq_some hy1
       obtain ⟨x3, y3, hx3, hy3, rfl⟩ := cat_eq_some hy2
       obtain ⟨x4, y4, hx4, hy4, rfl⟩ := cat_eq_some hy3
@@ -68,5 +68,41 @@ theorem doc_rt (P : Params) (hP : P.Ok) (o : POpts) (S : LSchema) (hann : Annots
           simp only [parseLybF, e1, hm2, Bool.false_eq_true, ↓reduceIte, e2, hv, c1, e3, pModels, e4, hmm, Bool.true_or,
             pSibs] at e6 ⊢
           simp only [show ((1 : Nat) != 0) = true from rfl, e6, e7, Option.map_some, List.nil_append]
+
+/-! ### the single-tree mode is the with-siblings mode of the first tree -/
+
+theorem cat_nil_left (x : Option (List Op)) : (some [] +++ x) = x := by
+  cases x <;> simp [cat]
+
+theorem cat_nil_right (x : Option (List Op)) : (x +++ some []) = x := by
+  cases x <;> simp [cat]
+
+/-- what the print options select of a forest: all of it, or (no `LYD_PRINT_WITHSIBLINGS`) its first tree -/
+def printedForest (o : POpts) (t : List DNode) : List DNode := if o.withSiblings then t else t.take 1
+
+theorem topSingleOps_eq (o : POpts) (S : LSchema) (fc : FrameCtx) (t : List DNode) :
+    topSingleOps o S fc t = sibOps o S none fc none (t.take 1) := by
+  cases t with
+  | nil => rfl
+  | cons n rest =>
+    simp only [topSingleOps, List.take_succ_cons, List.take_zero, sibOps, reduceCtorEq, ↓reduceIte, closeOps, cat_nil_left,
+      cat_nil_right]
+
+theorem docOps_eq (o : POpts) (S : LSchema) (t : List DNode) : docOps o S t = docOpsW o S (printedForest o t) := by
+  simp only [docOps, printedForest]
+  split
+  · rfl
+  · simp only [docOpsW, topSingleOps_eq]
+    cases t <;> rfl
+
+theorem printLyb_eq (P : Params) (o : POpts) (S : LSchema) (t : List DNode) :
+    printLyb P o S t = printLybW P o S (printedForest o t) := by
+  simp only [printLyb, printLybW, docOps_eq]
+
+theorem wfForest_take (S : LSchema) : ∀ (t : List DNode), WfForest S t → WfForest S (t.take 1)
+  | [], _ => trivial
+  | n :: rest, h => by
+    simp only [List.take_succ_cons, List.take_zero, WfForest] at h ⊢
+    exact ⟨h.1, trivial⟩
 
 end LyModel.LybTree
